@@ -6,18 +6,63 @@ Require Import Base.PyNum Base.Outcome Model.Values Model.Vocab Model.Types Mode
 Require Import Gen.GenScalars Gen.GenGates Gen.GenExcept.
 Import ListNotations.
 
+(* the kinds of data a fragment type can possibly accept (an over-approximation that is
+   exact enough to tell union members apart) *)
+Definition kind_is_none (k : kind) : bool := match k with KNone => true | _ => false end.
+(* the kinds of the values Python's == identifies with a literal *)
+Definition lit_kinds (l : pyval) (k : kind) : bool :=
+  match l with
+  | VNone => kind_is_none k
+  | VBool _ | VInt _ => match k with KBool | KInt | KFloat | KComplex => true | _ => false end
+  | VStr _ => match k with KStr => true | _ => false end
+  | VBytes _ => match k with KBytes | KByteArray => true | _ => false end
+  | _ => true
+  end.
+Fixpoint accepts (t : ty) (k : kind) : bool :=
+  match t with
+  | TNone => kind_is_none k
+  | TScalar s => scalar_allowed s k
+  | TSeq _ _ | TTuple _ => gate_sequence k
+  | TDict _ _ => gate_mapping k
+  | TCond t' _ => accepts t' k
+  | TUnion ms => existsb (fun m => accepts m k) ms
+  | TLiteral vals => existsb (fun l => lit_kinds l k) vals
+  | _ => true
+  end.
+Definition all_kinds : list kind :=
+  [KNone; KBool; KInt; KFloat; KComplex; KStr; KBytes; KByteArray; KList; KTuple; KDict; KSet; KFrozenSet; KEnum; KInst;
+   KStd KDecimal; KStd KFraction; KStd KDatetime; KStd KDate; KStd KTime; KStd KPath; KStd KPattern; KOpaque].
+Lemma all_kinds_complete k : In k all_kinds.
+Proof. destruct k as [| | | | | | | | | | | | | | |s|]; try destruct s; simpl; tauto. Qed.
+Definition disjoint (a b : ty) : bool := forallb (fun k => negb (accepts a k && accepts b k)) all_kinds.
+Fixpoint pairwise_disjoint (ms : list ty) : bool :=
+  match ms with [] => true | m :: r => forallb (disjoint m) r && pairwise_disjoint r end.
+Lemma disjoint_spec a b k : disjoint a b = true -> accepts b k = true -> accepts a k = false.
+Proof.
+  unfold disjoint. rewrite forallb_forall. intros H B. specialize (H k (all_kinds_complete k)).
+  rewrite B, andb_true_r in H. now destruct (accepts a k).
+Qed.
+
+(* literal members that serialise to themselves *)
+Definition lit_scalar (l : pyval) : Prop :=
+  match l with VNone | VBool _ | VInt _ | VStr _ | VBytes _ => True | _ => False end.
+
 Inductive rt_ty : ty -> Prop :=
 | rt_none : rt_ty TNone
 | rt_scalar s : rt_ty (TScalar s)
 | rt_list e : rt_ty e -> rt_ty (TSeq SeqList e)
 | rt_vtuple e : rt_ty e -> rt_ty (TSeq SeqTuple e)
-| rt_tuple es : Forall rt_ty es -> rt_ty (TTuple es).
+| rt_tuple es : Forall rt_ty es -> rt_ty (TTuple es)
+| rt_dict e : rt_ty e -> rt_ty (TDict (TScalar SStr) e)        (* text-keyed mappings: the JSON object *)
+| rt_cond e c : rt_ty e -> rt_ty (TCond e c)
+| rt_literal vals : Forall lit_scalar vals -> rt_ty (TLiteral vals)
+| rt_union ms : Forall rt_ty ms -> pairwise_disjoint ms = true -> rt_ty (TUnion ms).
 
 (* what one type guarantees *)
 Definition rt_at (t : ty) : Prop :=
   forall v x, tc t v = Ok x ->
     (exists d, into_data t x = Ok d /\ tc t d = Ok x) /\   (* C05 *)
-    (into_auto x = into_data t x \/ True) /\
+    tc t x = Ok x /\                                        (* a typed value is accepted as it is *)
     (exists d, into_auto x = Ok d /\ tc t d = Ok x).       (* C06: convert(x, T) = x *)
 
 Lemma scalar_rt s : rt_at (TScalar s).
@@ -27,9 +72,9 @@ Proof.
   unfold guard in H. destruct (scalar_ctor s v) as [y|e] eqn:C; [|destruct (caught _ _); discriminate].
   inversion H; subst y. clear H.
   destruct s, v; simpl in A, C; try discriminate; inversion C; subst; clear C;
-    try (repeat split; try (right; exact I); eexists; split; reflexivity).
+    try (repeat split; try reflexivity; eexists; split; reflexivity).
   all: try (unfold to_float_raw in *; destruct (float_of_Z z) eqn:F; inversion H0; subst;
-            repeat split; try (right; exact I); eexists; split; reflexivity).
+            repeat split; try reflexivity; eexists; split; reflexivity).
 Qed.
 
 Section MapOut.
@@ -63,32 +108,36 @@ Qed.
 Lemma seq_transport e xs0 xs :
   rt_at e -> map_out (tc e) xs0 = Ok xs ->
   (exists ds, map_out (into_data e) xs = Ok ds /\ map_out (tc e) ds = Ok xs) /\
+  map_out (tc e) xs = Ok xs /\
   (exists ds, map_out into_auto xs = Ok ds /\ map_out (tc e) ds = Ok xs).
 Proof.
   intros R H. apply map_out_ok_forall2 in H.
   induction H as [|v x xs0 xs Hv _ IH]; simpl.
-  - split; exists []; split; reflexivity.
-  - destruct (R v x Hv) as ((d & I1 & T1) & _ & (d' & I2 & T2)).
-    destruct IH as ((ds & M1 & N1) & (ds' & M2 & N2)).
-    split.
+  - repeat split; try exists []; try split; reflexivity.
+  - destruct (R v x Hv) as ((d & I1 & T1) & S1 & (d' & I2 & T2)).
+    destruct IH as ((ds & M1 & N1) & S2 & (ds' & M2 & N2)).
+    repeat split.
     + exists (d :: ds). rewrite I1, M1. split; [reflexivity|]. simpl. now rewrite T1, N1.
+    + now rewrite S1, S2.
     + exists (d' :: ds'). rewrite I2, M2. split; [reflexivity|]. simpl. now rewrite T2, N2.
 Qed.
 
 Lemma tuple_transport es : Forall rt_at es -> forall vs xs,
   List.length vs = List.length es -> zip_out tc es vs = Ok xs ->
   (exists ds, zip_out into_data es xs = Ok ds /\ List.length ds = List.length es /\ zip_out tc es ds = Ok xs) /\
+  zip_out tc es xs = Ok xs /\
   (exists ds, map_out into_auto xs = Ok ds /\ List.length ds = List.length es /\ zip_out tc es ds = Ok xs).
 Proof.
   induction 1 as [|t es R _ IH]; intros vs xs L H.
-  - destruct vs; simpl in *; inversion H; split; exists []; repeat split; reflexivity.
+  - destruct vs; simpl in *; inversion H; repeat split; try exists []; repeat split; reflexivity.
   - destruct vs as [|v vs]; simpl in L; [discriminate|]. simpl in H.
     destruct (tc t v) as [x| |e] eqn:E; try discriminate.
     destruct (zip_out tc es vs) as [xs'| |e] eqn:Z; try discriminate. inversion H; subst.
-    destruct (R v x E) as ((d & I1 & T1) & _ & (d' & I2 & T2)).
-    destruct (IH vs xs' (eq_add_S _ _ L) Z) as ((ds & M1 & L1 & N1) & (ds' & M2 & L2 & N2)).
-    split.
+    destruct (R v x E) as ((d & I1 & T1) & S1 & (d' & I2 & T2)).
+    destruct (IH vs xs' (eq_add_S _ _ L) Z) as ((ds & M1 & L1 & N1) & S2 & (ds' & M2 & L2 & N2)).
+    repeat split.
     + exists (d :: ds). simpl. rewrite I1, M1, T1, N1, L1. repeat split; reflexivity.
+    + simpl. now rewrite S1, S2.
     + exists (d' :: ds'). simpl. rewrite I2, M2, T2, N2, L2. repeat split; reflexivity.
 Qed.
 
@@ -101,29 +150,300 @@ Proof.
     inversion H; subst. simpl. f_equal. eapply IH; eauto.
 Qed.
 
+(* ------------------------------------------------------------------ kinds: soundness of [accepts] *)
+
+Lemma first_ok_in {A B} (f : A -> outcome B) l y :
+  first_ok f l = Ok y -> exists m, In m l /\ f m = Ok y.
+Proof.
+  induction l as [|a l IH]; simpl; [discriminate|].
+  destruct (f a) as [z| |e] eqn:E; try discriminate.
+  - intros H; inversion H; subst. exists a; auto.
+  - intros H. destruct (IH H) as (m & I & F). exists m; auto.
+Qed.
+
+Lemma lit_kinds_sound v l : py_eqb v l = true -> lit_kinds l (kind_of v) = true.
+Proof. destruct l; simpl; try reflexivity; destruct v; simpl; try discriminate; reflexivity. Qed.
+
+(* whatever a type accepts has one of its kinds -- for every type of the model *)
+Lemma accepts_sound t : forall v x, tc t v = Ok x -> accepts t (kind_of v) = true.
+Proof.
+  induction t using ty_ind'; intros v x Hx; simpl; try reflexivity; simpl in Hx.
+  - destruct v; try discriminate; reflexivity.
+  - destruct (scalar_allowed s (kind_of v)); [reflexivity|discriminate].
+  - destruct (gate_sequence (kind_of v)); [reflexivity|discriminate].
+  - destruct (gate_sequence (kind_of v)); [reflexivity|discriminate].
+  - destruct (gate_mapping (kind_of v)); [reflexivity|discriminate].
+  - apply first_ok_in in Hx. destruct Hx as (m & I & F).
+    apply existsb_exists. exists m. split; [exact I|].
+    rewrite Forall_forall in H. exact (H m I v x F).
+  - destruct (existsb (py_eqb v) vals) eqn:E; [|discriminate].
+    apply existsb_exists in E. destruct E as (l & I & E). apply existsb_exists. exists l. split; [exact I|].
+    now apply lit_kinds_sound.
+  - destruct (tc t v) as [y| |e] eqn:E; try discriminate. eapply IHt; eauto.
+Qed.
+
+(* outside its kinds a fragment type refuses (it does not raise) *)
+Lemma reject_outside t : rt_ty t -> forall v, accepts t (kind_of v) = false -> tc t v = Reject.
+Proof.
+  induction t using ty_ind'; intros R; inversion R; subst; intros v A; simpl in A |- *; try discriminate.
+  - destruct v; simpl in A; try discriminate; reflexivity.
+  - now rewrite A.
+  - now rewrite A.
+  - now rewrite A.
+  - now rewrite A.
+  - now rewrite A.
+  - (* union *)
+    match goal with HR : Forall rt_ty ms |- _ => rename HR into RM end.
+    clear R. induction ms as [|m ms IH]; simpl; [reflexivity|].
+    simpl in A. apply orb_false_elim in A. destruct A as [A1 A2].
+    inversion H as [|? ? Hm Hms]; subst. inversion RM as [|? ? Rm Rms]; subst.
+    rewrite (Hm Rm v A1). apply IH; try assumption.
+    match goal with HP : pairwise_disjoint (m :: ms) = true |- _ => simpl in HP; apply andb_prop in HP; apply HP end.
+  - (* literal *)
+    destruct (existsb (py_eqb v) vals) eqn:E; [|reflexivity].
+    apply existsb_exists in E. destruct E as (l & I & E).
+    assert (X : existsb (fun l0 => lit_kinds l0 (kind_of v)) vals = true).
+    { apply existsb_exists. exists l. split; [exact I|]. now apply lit_kinds_sound. }
+    rewrite X in A. discriminate.
+  - match goal with HR : rt_ty t |- _ => rewrite (IHt HR v A) end. reflexivity.
+Qed.
+
+(* ------------------------------------------------------------------ unions of kind-disjoint members *)
+
+Lemma first_ok_split {A B} (f : A -> outcome B) l y :
+  first_ok f l = Ok y ->
+  exists pre m post, l = (pre ++ m :: post)%list /\ Forall (fun p => f p = Reject) pre /\ f m = Ok y.
+Proof.
+  induction l as [|a l IH]; simpl; [discriminate|].
+  destruct (f a) as [z| |e] eqn:E; try discriminate.
+  - intros H; inversion H; subst. exists [], a, l. repeat split; auto.
+  - intros H. destruct (IH H) as (pre & m & post & -> & P & F).
+    exists (a :: pre), m, post. repeat split; auto.
+Qed.
+
+Lemma first_ok_skip {A B} (f : A -> outcome B) pre m post y :
+  Forall (fun p => f p = Reject) pre -> f m = Ok y -> first_ok f (pre ++ m :: post)%list = Ok y.
+Proof. induction 1 as [|p pre P _ IH]; simpl; intros F; [now rewrite F|]. rewrite P. auto. Qed.
+
+Lemma pairwise_split pre m post :
+  pairwise_disjoint (pre ++ m :: post)%list = true -> Forall (fun p => disjoint p m = true) pre.
+Proof.
+  induction pre as [|p pre IH]; simpl; intros H; [constructor|].
+  apply andb_prop in H. destruct H as [H1 H2]. constructor; [|auto].
+  rewrite forallb_forall in H1. apply H1. apply in_or_app. right. left. reflexivity.
+Qed.
+
+(* every earlier member refuses a value whose kind belongs to [m] *)
+Lemma earlier_reject pre m y :
+  Forall rt_ty pre -> Forall (fun p => disjoint p m = true) pre -> accepts m (kind_of y) = true ->
+  Forall (fun p => tc p y = Reject) pre.
+Proof.
+  intros R D A. induction pre as [|p pre IH]; constructor; inversion R; inversion D; subst; auto.
+  apply reject_outside; [assumption|]. eapply disjoint_spec; eauto.
+Qed.
+
+(* UnionConverter.into_data: the first member whose fast pass does not refuse the value serialises it *)
+Definition union_pick (x : pyval) : list ty -> option (outcome pyval) :=
+  fix go (l : list ty) : option (outcome pyval) :=
+    match l with
+    | [] => None
+    | m :: r => match tc m x with Ok _ => Some (into_data m x) | Reject => go r | Escape z => Some (Escape z) end
+    end.
+Definition union_default (ms : list ty) (x : pyval) : outcome pyval :=
+  match x with
+  | VInst c _ _ => match with_class c class_name_of (fun m => into_data m x) ms with Some o => o | None => unmodelled end
+  | _ => into_auto x
+  end.
+Lemma into_union_unfold ms x :
+  into_data (TUnion ms) x = match union_pick x ms with Some o => o | None => union_default ms x end.
+Proof. reflexivity. Qed.
+Lemma union_pick_skip pre m post x y :
+  Forall (fun p => tc p x = Reject) pre -> tc m x = Ok y ->
+  union_pick x (pre ++ m :: post)%list = Some (into_data m x).
+Proof.
+  induction 1 as [|p pre P _ IH]; intros F; simpl.
+  - now rewrite F.
+  - rewrite P. auto.
+Qed.
+Lemma union_into_skip pre m post x y :
+  Forall (fun p => tc p x = Reject) pre -> tc m x = Ok y ->
+  into_data (TUnion (pre ++ m :: post)%list) x = into_data m x.
+Proof. intros P F. rewrite into_union_unfold, (union_pick_skip pre m post x y P F). reflexivity. Qed.
+
+Lemma lit_self v l : lit_scalar l -> py_eqb v l = true -> into_auto v = Ok v.
+Proof. destruct l; simpl; try tauto; intros _; destruct v; simpl; try discriminate; reflexivity. Qed.
+
+Lemma lit_member_self v vals : Forall lit_scalar vals -> existsb (py_eqb v) vals = true -> into_auto v = Ok v.
+Proof.
+  intros F E. apply existsb_exists in E. destruct E as (l & I & E).
+  rewrite Forall_forall in F. eapply lit_self; eauto.
+Qed.
+
+(* ------------------------------------------------------------------ text-keyed mappings *)
+
+Definition strkey (kv : string * pyval) : pyval * pyval := (VStr (fst kv), snd kv).
+
+Lemma dict_set_str n v (acc : list (string * pyval)) :
+  dict_set (VStr n) v (map strkey acc) = map strkey (assoc_set String.eqb n v acc).
+Proof.
+  unfold dict_set. induction acc as [|[k y] acc IH]; simpl; [reflexivity|].
+  destruct (String.eqb n k); simpl; [reflexivity|]. now rewrite IH.
+Qed.
+
+Lemma assoc_set_keys n v (acc : list (string * pyval)) :
+  map fst (assoc_set String.eqb n v acc) = if existsb (String.eqb n) (map fst acc) then map fst acc else (map fst acc ++ [n])%list.
+Proof.
+  induction acc as [|[k y] acc IH]; simpl; [reflexivity|].
+  destruct (String.eqb n k); simpl; [reflexivity|]. rewrite IH. destruct (existsb _ _); reflexivity.
+Qed.
+
+Lemma NoDup_app_one {A} (l : list A) (n : A) : NoDup l -> ~ In n l -> NoDup (l ++ [n])%list.
+Proof.
+  induction 1 as [|a l Na _ IH]; simpl; intros Hn; [repeat constructor; tauto|].
+  constructor; [|apply IH; tauto]. intros Hin. apply in_app_or in Hin. destruct Hin as [Hin|[->|[]]]; tauto.
+Qed.
+
+Lemma assoc_set_nodup n v (acc : list (string * pyval)) : NoDup (map fst acc) -> NoDup (map fst (assoc_set String.eqb n v acc)).
+Proof.
+  intros N. rewrite assoc_set_keys. destruct (existsb (String.eqb n) (map fst acc)) eqn:E; [exact N|].
+  apply NoDup_app_one; [exact N|]. intros Hin.
+  assert (X : existsb (String.eqb n) (map fst acc) = true) by (apply existsb_exists; exists n; split; [exact Hin|apply String.eqb_refl]).
+  congruence.
+Qed.
+
+Lemma assoc_set_forall_str (P : string * pyval -> Prop) n v acc :
+  (forall k, P (k, v)) -> Forall P acc -> Forall P (assoc_set String.eqb n v acc).
+Proof.
+  intros Pv. induction 1 as [|[k y] acc Pk Fa IH]; simpl; [constructor; [apply Pv|constructor]|].
+  destruct (String.eqb n k); constructor; auto.
+Qed.
+
+Lemma fold_set_str (P : pyval -> Prop) (l : list (string * pyval)) : forall acc,
+  NoDup (map fst acc) -> Forall (fun nv => P (snd nv)) acc -> Forall (fun nv => P (snd nv)) l ->
+  exists acc', fold_left (fun d kv => dict_set (fst kv) (snd kv) d) (map strkey l) (map strkey acc) = map strkey acc' /\
+               NoDup (map fst acc') /\ Forall (fun nv => P (snd nv)) acc'.
+Proof.
+  induction l as [|[n v] l IH]; intros acc N Fa Fl; simpl.
+  - exists acc. auto.
+  - rewrite dict_set_str. inversion Fl as [|? ? Pv Fl']; subst. apply IH; [now apply assoc_set_nodup| |exact Fl'].
+    apply assoc_set_forall_str; [intros k; exact Pv|exact Fa].
+Qed.
+
+Lemma dict_set_fresh n v (acc : list (string * pyval)) :
+  ~ In n (map fst acc) -> dict_set (VStr n) v (map strkey acc) = map strkey (acc ++ [(n, v)])%list.
+Proof.
+  unfold dict_set. induction acc as [|[k y] acc IH]; simpl; intros N; [reflexivity|].
+  destruct (String.eqb n k) eqn:E; [apply String.eqb_eq in E; subst; tauto|].
+  rewrite IH; [reflexivity|tauto].
+Qed.
+
+Lemma fold_set_distinct (l : list (string * pyval)) : forall acc,
+  NoDup (map fst (acc ++ l)%list) ->
+  fold_left (fun d kv => dict_set (fst kv) (snd kv) d) (map strkey l) (map strkey acc) = map strkey (acc ++ l)%list.
+Proof.
+  induction l as [|[n v] l IH]; intros acc N; simpl; [now rewrite app_nil_r|].
+  rewrite dict_set_fresh.
+  - rewrite IH; rewrite <- app_assoc; [reflexivity|exact N].
+  - rewrite map_app in N. apply NoDup_remove_2 in N. intros Hin. apply N. apply in_or_app. now left.
+Qed.
+
+Lemma strkeys_hashable (l : list (string * pyval)) : forallb (fun kv : pyval * pyval => hashable (fst kv)) (map strkey l) = true.
+Proof. apply forallb_forall. intros kv Hin. apply in_map_iff in Hin. destruct Hin as (x & <- & _). reflexivity. Qed.
+
+Lemma dict_ctor_strkeys (l : list (string * pyval)) :
+  NoDup (map fst l) -> dict_ctor (map strkey l) = ROk (VDict (map strkey l)).
+Proof. intros N. unfold dict_ctor. rewrite strkeys_hashable. f_equal. f_equal. exact (fold_set_distinct l [] N). Qed.
+
+Lemma build_dict_strkeys (l : list (string * pyval)) :
+  NoDup (map fst l) -> build_dict (map strkey l) = Ok (VDict (map strkey l)).
+Proof. intros N. unfold build_dict. now rewrite dict_ctor_strkeys. Qed.
+
+(* what str accepts is a str, and it is returned as it is; a str serialises to itself *)
+Lemma str_image k k' : tc (TScalar SStr) k = Ok k' -> exists s, k = VStr s /\ k' = VStr s.
+Proof. destruct k; simpl; try discriminate. intros H; inversion H. eauto. Qed.
+Lemma str_self s : tc (TScalar SStr) (VStr s) = Ok (VStr s) /\ into_data (TScalar SStr) (VStr s) = Ok (VStr s) /\ into_auto (VStr s) = Ok (VStr s).
+Proof. repeat split; reflexivity. Qed.
+
+Lemma map_out_cons_ok {A B} (f : A -> outcome B) a l y ys :
+  f a = Ok y -> map_out f l = Ok ys -> map_out f (a :: l) = Ok (y :: ys).
+Proof. intros E M. simpl. now rewrite E, M. Qed.
+
+Definition dict_conv (e : ty) (kv : pyval * pyval) : outcome (pyval * pyval) :=
+  match tc (TScalar SStr) (fst kv) with
+  | Ok k' => match tc e (snd kv) with Ok v' => Ok (k', v') | Reject => Reject | Escape x => Escape x end
+  | Reject => Reject
+  | Escape x => Escape x
+  end.
+
+Definition dict_into (e : ty) (kv : pyval * pyval) : outcome (pyval * pyval) :=
+  match into_data (TScalar SStr) (fst kv) with
+  | Ok k' => match into_data e (snd kv) with Ok v' => Ok (k', v') | Reject => Reject | Escape z => Escape z end
+  | Reject => Reject
+  | Escape z => Escape z
+  end.
+Definition auto_pair (kv : pyval * pyval) : outcome (pyval * pyval) :=
+  match into_auto (fst kv) with
+  | Ok k' => match into_auto (snd kv) with Ok v' => Ok (k', v') | Reject => Reject | Escape z => Escape z end
+  | Reject => Reject
+  | Escape z => Escape z
+  end.
+Lemma into_dict_str e kvs : is_any_ty e = false ->
+  into_data (TDict (TScalar SStr) e) (VDict kvs) =
+  match map_out (dict_into e) kvs with Ok out => build_dict out | Reject => Reject | Escape z => Escape z end.
+Proof. intros NA. simpl. rewrite NA. reflexivity. Qed.
+Lemma auto_dict kvs :
+  into_auto (VDict kvs) = match map_out auto_pair kvs with Ok out => build_dict out | Reject => Reject | Escape z => Escape z end.
+Proof. reflexivity. Qed.
+
+(* the converted pairs of a text-keyed mapping *)
+Lemma dict_pairs_image e pairs kvs :
+  map_out (dict_conv e) pairs = Ok kvs ->
+  exists l, kvs = map strkey l /\ Forall (fun nv => exists v0, tc e v0 = Ok (snd nv)) l.
+Proof.
+  revert kvs. induction pairs as [|[k v] pairs IH]; intros kvs H; simpl in H.
+  - inversion H. exists []. split; [reflexivity|constructor].
+  - unfold dict_conv in H at 1. simpl fst in H. simpl snd in H.
+    destruct (tc (TScalar SStr) k) as [k'| |z] eqn:Ek; try discriminate.
+    destruct (tc e v) as [v'| |z] eqn:Ev; try discriminate.
+    destruct (map_out (dict_conv e) pairs) as [rest| |z] eqn:M; try discriminate. inversion H; subst.
+    destruct (IH rest eq_refl) as (l & -> & F). destruct (str_image k k' Ek) as (s & -> & ->).
+    exists ((s, v') :: l). split; [reflexivity|]. constructor; [simpl; eauto|exact F].
+Qed.
+
+(* converting typed / serialised pairs again gives the typed pairs back *)
+Lemma dict_pairs_again e (l ld : list (string * pyval)) :
+  Forall2 (fun nv nd => fst nd = fst nv /\ tc e (snd nd) = Ok (snd nv)) l ld ->
+  map_out (dict_conv e) (map strkey ld) = Ok (map strkey l).
+Proof.
+  induction 1 as [|[n y] [n' d] l ld [E T] _ IH]; simpl; [reflexivity|]. simpl in E, T. subst n'.
+  unfold dict_conv at 1. simpl fst. simpl snd. destruct (str_self n) as (-> & _). rewrite T, IH. reflexivity.
+Qed.
+
 Theorem rt_all t : rt_ty t -> rt_at t.
 Proof.
   induction t using ty_ind'; intros R; inversion R; subst.
   - (* None *) intros v x H. simpl in H. destruct v; inversion H; subst.
-    repeat split; try (right; exact I); exists VNone; split; reflexivity.
+    repeat split; try reflexivity; exists VNone; split; reflexivity.
   - apply scalar_rt.
   - (* list *)
     specialize (IHt H0). intros v x H. simpl in H.
     destruct (gate_sequence (kind_of v)) eqn:G; [|discriminate].
     destruct (map_out (tc t) (items_of v)) as [xs| |e] eqn:M; try discriminate; try (destruct (caught _ _); discriminate).
     simpl in H. inversion H; subst x.
-    destruct (seq_transport t _ _ IHt M) as ((ds & M1 & N1) & (ds' & M2 & N2)).
-    repeat split; try (right; exact I).
+    destruct (seq_transport t _ _ IHt M) as ((ds & M1 & N1) & S1 & (ds' & M2 & N2)).
+    repeat split.
     + exists (VList ds). simpl. rewrite M1. split; [reflexivity|]. simpl. now rewrite N1.
+    + simpl. now rewrite S1.
     + exists (VList ds'). simpl. rewrite M2. split; [reflexivity|]. simpl. now rewrite N2.
   - (* variadic tuple *)
     specialize (IHt H0). intros v x H. simpl in H.
     destruct (gate_sequence (kind_of v)) eqn:G; [|discriminate].
     destruct (map_out (tc t) (items_of v)) as [xs| |e] eqn:M; try discriminate; try (destruct (caught _ _); discriminate).
     simpl in H. inversion H; subst x.
-    destruct (seq_transport t _ _ IHt M) as ((ds & M1 & N1) & (ds' & M2 & N2)).
-    repeat split; try (right; exact I).
+    destruct (seq_transport t _ _ IHt M) as ((ds & M1 & N1) & S1 & (ds' & M2 & N2)).
+    repeat split.
     + exists (VTuple ds). simpl. rewrite M1. split; [reflexivity|]. simpl. now rewrite N1.
+    + simpl. now rewrite S1.
     + exists (VTuple ds'). simpl. rewrite M2. split; [reflexivity|]. simpl. now rewrite N2.
   - (* fixed tuple *)
     assert (A : Forall rt_at es).
@@ -133,15 +453,94 @@ Proof.
     destruct (Nat.eqb (List.length (items_of v)) (List.length es)) eqn:L; [|discriminate]. simpl in Hx.
     apply Nat.eqb_eq in L.
     destruct (zip_out tc es (items_of v)) as [xs| |e] eqn:Z; try discriminate. inversion Hx; subst x.
-    destruct (tuple_transport es A _ _ L Z) as ((ds & M1 & L1 & N1) & (ds' & M2 & L2 & N2)).
-    repeat split; try (right; exact I).
+    pose proof (zip_out_length _ _ _ _ (eq_sym L) Z) as LX.
+    destruct (tuple_transport es A _ _ L Z) as ((ds & M1 & L1 & N1) & S1 & (ds' & M2 & L2 & N2)).
+    repeat split.
     + exists (VTuple ds). simpl. rewrite M1. split; [reflexivity|]. simpl. rewrite L1, Nat.eqb_refl. simpl. now rewrite N1.
+    + simpl. rewrite LX, Nat.eqb_refl. simpl. now rewrite S1.
     + exists (VTuple ds'). simpl. rewrite M2. split; [reflexivity|]. simpl. rewrite L2, Nat.eqb_refl. simpl. now rewrite N2.
+  - (* text-keyed mappings *)
+    match goal with HR : rt_ty t2 |- _ => specialize (IHt2 HR); rename HR into Rv end.
+    intros v x Hx. simpl in Hx.
+    destruct (gate_mapping (kind_of v)) eqn:G; [|discriminate].
+    change (map_out _ (pairs_of v)) with (map_out (dict_conv t2) (pairs_of v)) in Hx.
+    destruct (map_out (dict_conv t2) (pairs_of v)) as [kvs| |z] eqn:M; try discriminate; try (destruct (caught _ _); discriminate).
+    destruct (dict_pairs_image t2 _ _ M) as (l0 & -> & F0).
+    unfold guard, dict_ctor in Hx. rewrite strkeys_hashable in Hx.
+    destruct (fold_set_str (fun y => exists v0, tc t2 v0 = Ok y) l0 [] (NoDup_nil _) (Forall_nil _) F0) as (l & E & N & F).
+    simpl in E. rewrite E in Hx. inversion Hx; subst x. clear Hx E.
+    (* per entry: the serialised value, the untyped serialised value *)
+    assert (X : exists ld ld',
+              Forall2 (fun nv nd => fst nd = fst nv /\ tc t2 (snd nd) = Ok (snd nv)) l ld /\
+              Forall2 (fun nv nd => fst nd = fst nv /\ tc t2 (snd nd) = Ok (snd nv)) l ld' /\
+              Forall2 (fun nv nd => fst nd = fst nv /\ tc t2 (snd nd) = Ok (snd nv)) l l /\
+              map_out (dict_into t2) (map strkey l) = Ok (map strkey ld) /\
+              map_out auto_pair (map strkey l) = Ok (map strkey ld')).
+    { clear N. induction F as [|[n y] l (v0 & E0) _ IH].
+      - exists [], []. repeat split; constructor.
+      - destruct IH as (ld & ld' & A1 & A2 & A3 & M1 & M2).
+        destruct (IHt2 v0 y E0) as ((d & I1 & T1) & S1 & (d' & I2 & T2)).
+        exists ((n, d) :: ld), ((n, d') :: ld'). repeat split; try (constructor; simpl; auto; fail).
+        + simpl map. apply map_out_cons_ok; [|exact M1]. unfold dict_into, strkey. simpl. now rewrite I1.
+        + simpl map. apply map_out_cons_ok; [|exact M2]. unfold auto_pair, strkey. simpl. now rewrite I2. }
+    destruct X as (ld & ld' & A1 & A2 & A3 & M1 & M2).
+    assert (Nk : forall m, Forall2 (fun nv nd : string * pyval => fst nd = fst nv /\ tc t2 (snd nd) = Ok (snd nv)) l m -> map fst m = map fst l).
+    { clear. induction 1 as [|a b l m [E _] _ IH]; simpl; [reflexivity|]. now rewrite E, IH. }
+    assert (NA : is_any_ty t2 = false) by (destruct Rv; reflexivity).
+    assert (Again : forall m, Forall2 (fun nv nd : string * pyval => fst nd = fst nv /\ tc t2 (snd nd) = Ok (snd nv)) l m ->
+                    tc (TDict (TScalar SStr) t2) (VDict (map strkey m)) = Ok (VDict (map strkey l))).
+    { intros m Hm. simpl. replace (gate_mapping KDict) with true by reflexivity.
+      change (map_out _ (map strkey m)) with (map_out (dict_conv t2) (map strkey m)).
+      rewrite (dict_pairs_again t2 l m Hm). unfold guard. now rewrite (dict_ctor_strkeys l N). }
+    repeat split.
+    + exists (VDict (map strkey ld)). split; [|now apply Again].
+      rewrite (into_dict_str t2 _ NA), M1. apply build_dict_strkeys. now rewrite (Nk ld A1).
+    + now apply Again.
+    + exists (VDict (map strkey ld')). split; [|now apply Again].
+      rewrite auto_dict, M2. apply build_dict_strkeys. now rewrite (Nk ld' A2).
+  - (* union of kind-disjoint members *)
+    intros v x Hx. simpl in Hx.
+    destruct (first_ok_split _ _ _ Hx) as (pre & m & post & -> & Pv & Fm).
+    assert (Rm : rt_ty m /\ Forall rt_ty pre).
+    { apply Forall_app in H1. destruct H1 as [Hp Hm]. inversion Hm; auto. }
+    destruct Rm as [Rm Rpre].
+    assert (Am : rt_at m).
+    { rewrite Forall_forall in H. apply H; [|exact Rm]. apply in_or_app. right. left. reflexivity. }
+    pose proof (pairwise_split _ _ _ H2) as D.
+    destruct (Am v x Fm) as ((d & I1 & T1) & S1 & (d' & I2 & T2)).
+    pose proof (earlier_reject pre m x Rpre D (accepts_sound m x x S1)) as Px.
+    pose proof (earlier_reject pre m d Rpre D (accepts_sound m d x T1)) as Pd.
+    pose proof (earlier_reject pre m d' Rpre D (accepts_sound m d' x T2)) as Pd'.
+    repeat split.
+    + exists d. rewrite (union_into_skip pre m post x x Px S1). split; [exact I1|].
+      simpl. apply first_ok_skip; assumption.
+    + simpl. apply first_ok_skip; assumption.
+    + exists d'. split; [exact I2|]. simpl. apply first_ok_skip; assumption.
+  - (* scalar literals *)
+    intros v x Hx. simpl in Hx. destruct (existsb (py_eqb v) vals) eqn:E; [|discriminate].
+    inversion Hx; subst x. pose proof (lit_member_self v vals H0 E) as S.
+    repeat split.
+    + exists v. simpl. rewrite S, E. split; reflexivity.
+    + simpl. now rewrite E.
+    + exists v. simpl. rewrite S, E. split; reflexivity.
+  - (* conditions *)
+    match goal with HR : rt_ty t |- _ => specialize (IHt HR) end. intros v x Hx. simpl in Hx.
+    destruct (tc t v) as [y| |e] eqn:E; try discriminate.
+    destruct (guard S_cond_try (eval_cond c y)) as [[|]| |e] eqn:G; try discriminate.
+    inversion Hx; subst y.
+    destruct (IHt v x E) as ((d & I1 & T1) & S1 & (d' & I2 & T2)).
+    repeat split.
+    + exists d. simpl. rewrite T1, G. split; [exact I1|reflexivity].
+    + simpl. now rewrite S1, G.
+    + exists d'. simpl. rewrite T2, G. split; [exact I2|reflexivity].
 Qed.
 
 Corollary roundtrip_core t v x :
   rt_ty t -> tc t v = Ok x -> exists d, into_data t x = Ok d /\ tc t d = Ok x.
 Proof. intros R H. exact (proj1 (rt_all t R v x H)). Qed.
+
+Corollary typed_self_core t v x : rt_ty t -> tc t v = Ok x -> tc t x = Ok x.
+Proof. intros R H. exact (proj1 (proj2 (rt_all t R v x H))). Qed.
 
 Corollary fixed_point_core t v x :
   rt_ty t -> tc t v = Ok x -> exists d, into_auto x = Ok d /\ tc t d = Ok x.
